@@ -2,7 +2,7 @@
 from . import common as C, core
 
 PROOF_FILES = ["Proof/ArmLemmas.v", "Proof/LinAffine.v", "Proof/LinFrame.v", "Proof/AffineSound.v", "Proof/BoundsOfSound.v",
-               "Proof/TightenSound.v", "Proof/PropagateSound.v", "Proof/PublishSound.v", "Proof/PublishedCompile.v", "Proof/ShrinkSound.v", "Proof/CompileAffine.v"]
+               "Proof/TightenSound.v", "Proof/PropagateSound.v", "Proof/PublishSound.v", "Proof/PublishedCompile.v", "Proof/ShrinkSound.v", "Proof/CompileAffine.v", "Proof/CompileAbs.v"]
 
 
 def run(ctx):
@@ -14,8 +14,10 @@ def run(ctx):
     cov.update(cov2)
     cov["trusted_base"] = core.trusted(cov)
     return C.finish(ctx, "proof", cov, [
-        "the projection theorem is proved end to end through the whole of compile for the affine fragment (C01_projection_affine; premises: record affine_model in Proof/CompileAffine.v); "
-        "PARTIAL beyond it: for models with abs/min/max/logic constraints the full theorem (C01_projection_statement) is stated but not proved; proved for them are the affine stage, "
+        "the projection theorem is proved end to end through the whole of compile for the affine fragment (C01_projection_affine; premises: record affine_model in Proof/CompileAffine.v) "
+        "and for the arithmetic-with-abs fragment, where auxiliary variables, queued big-M rows and the bound analysis are involved (C01_projection_abs; premises: record abs_model in Proof/CompileAbs.v, "
+        "decided by abs_modelb on every tied model); "
+        "PARTIAL beyond it: for models with min/max/logic nodes the full theorem (C01_projection_statement) is stated but not proved; proved for them are the affine stage, "
         "every lowering arm's row pattern in both directions, soundness of every bound the rewrites read (C07), value preservation of the pre-processing "
         "rewrites (C10) and the frame property of all linearizer actions",
         "the whole compiler (all arms, logic lowering, main loop, naming) is modelled and tied structurally to Linearizer::linearize on every run; "
